@@ -70,24 +70,36 @@ class Prop(SeqProp):
                         a, b = b, a
                     ivs.append((a, b))
             ivs = [(a - shift, b - shift) for a, b in ivs]
+            big_case = rng.random() < 0.1
+            if big_case:
+                # integer bounds far beyond 2**53 (nanosecond time stamps): neighbouring ints are different keys; in these
+                # cases the model's integers are the numbers themselves (no halves, no floats)
+                big = rng.choice([2 ** 53, 1_700_000_000_000_000_000, 2 ** 64])
+                ivs = [(a + big, b + big) for a, b in ivs]
             if ivs and rng.random() < 0.3:
                 # a neighbour that shares exactly one point with an existing interval (touching), or sits inside it
                 a = rng.choice(ivs)
                 ivs.append(rng.choice([(a[1], a[1] + rng.randint(0, 4)), (a[0] - rng.randint(0, 4), a[0]), (a[0], a[0]),
                                        (a[1], a[1])]))
                 rng.shuffle(ivs)
-            yield self.mk(ivs)
+            c = self.mk(ivs)
+            if big_case:
+                c.meta["ints_only"] = True
+            yield c
 
     def run_impl(self, case):
         from windpyutils.structures.maps import ImmutIntervalMap
         m = None
         out = []
+        ints_only = bool(case.meta.get("ints_only"))
+        pv = (lambda n, as_float=False: n) if ints_only else pyval
+        unit = 1 if ints_only else 2
         for st in case.meta["impl"]:
             try:
                 if st[0] == "mk":
                     d = {}
                     for i, (s, e) in enumerate(st[1]):
-                        d[(pyval(s, i % 3 == 0), pyval(e, i % 2 == 0))] = dec_val(i)  # the model calls it i + 1; small codes are falsy objects
+                        d[(pv(s, i % 3 == 0), pv(e, i % 2 == 0))] = dec_val(i)  # the model calls it i + 1; small codes are falsy objects
                     m = None
                     m = ImmutIntervalMap(d)
                     # the caller goes on using its dict: the immutable map keeps what it was built from
@@ -100,9 +112,9 @@ class Prop(SeqProp):
                 elif m is None:
                     out.append("bad-op")
                 elif st[0] == "get":
-                    out.append(f"ret {enc_val(m[pyval(st[1], st[1] % 4 == 0)]) + 1}")
+                    out.append(f"ret {enc_val(m[pv(st[1], st[1] % 4 == 0)]) + 1}")
                 elif st[0] == "has":
-                    out.append(f"ret {1 if pyval(st[1]) in m else 0}")
+                    out.append(f"ret {1 if pv(st[1]) in m else 0}")
                 elif st[0] == "len":
                     out.append(f"ret {len(m)}")
                 elif st[0] == "iter":
@@ -118,7 +130,7 @@ class Prop(SeqProp):
                             items.append(x if inner == list(m) and len(inner) == len(m) else ("inner", "differs"))
                     else:
                         items = list(m)
-                    out.append("ret " + ",".join(f"{round(s * 2)}:{round(e * 2)}:{enc_val(v) + 1}" for (s, e), v in items))
+                    out.append("ret " + ",".join(f"{round(s * unit)}:{round(e * unit)}:{enc_val(v) + 1}" for (s, e), v in items))
                 else:
                     out.append("bad-op")
             except BaseException as e:  # noqa
